@@ -59,8 +59,25 @@ pub fn join<T: ToString>(xs: impl IntoIterator<Item = T>, sep: &str) -> String {
     xs.into_iter().map(|x| x.to_string()).collect::<Vec<_>>().join(sep)
 }
 
+thread_local! {
+    /// > 0 while the implementation under test runs inside `catch` (its panics are data, not harness bugs)
+    pub static IN_CATCH: std::cell::Cell<u32> = std::cell::Cell::new(0);
+}
+
+/// panic hook: silent for panics of the code under test, loud for the harness's own
+pub fn install_panic_hook() {
+    std::panic::set_hook(Box::new(|info| {
+        if IN_CATCH.with(|c| c.get()) == 0 {
+            eprintln!("harness panic: {}\n{}", info, std::backtrace::Backtrace::force_capture());
+        }
+    }));
+}
+
 pub fn catch<R>(f: impl FnOnce() -> R) -> Result<R, String> {
-    match std::panic::catch_unwind(std::panic::AssertUnwindSafe(f)) {
+    IN_CATCH.with(|c| c.set(c.get() + 1));
+    let r = std::panic::catch_unwind(std::panic::AssertUnwindSafe(f));
+    IN_CATCH.with(|c| c.set(c.get().saturating_sub(1)));
+    match r {
         Ok(r) => Ok(r),
         Err(e) => Err(if let Some(s) = e.downcast_ref::<&str>() {
             s.to_string()
